@@ -58,7 +58,7 @@ CLAIMED = {
          'Reference renderer written from the statement over std::fs metadata; padding asserted on ASCII values; %f/%h left open where the last component / the part before it is not in normal form.', 'DESIGN.md §3 C16'),
  'C12': ('differential property-based testing + bounded-exhaustive enumeration against glibc fnmatch(3) (character-level, through transliteration of non-ASCII characters): the matcher behind -name/-path/-lname via a verif-hooks entry point, and end to end on real files and link targets',
          'Exploration: every pattern of <= 4 (thorough 5) symbols over {a b * ? [ ] ! - \\ . /} x every subject of <= 4 symbols over {a b . / - ] NL} in both case modes (~87 million pairs), plus random patterns with classes, ranges, escapes, every regex metacharacter as a literal and multi-byte text against matching-by-construction subjects and their one-edit neighbours, plus find -name/-iname/-path/-ipath/-wholename/-lname/-ilname on files and link targets named by the subjects.',
-         'glibc fnmatch is the oracle on the compared domain; constructs POSIX leaves unspecified or where glibc deviates (listed in the evidence as discarded_outside_domain with counts) are not compared; a trailing lone backslash is judged by the statement directly.', 'DESIGN.md §3 C12'),
+         'glibc fnmatch is the oracle on the compared domain; constructs POSIX leaves unspecified or where glibc deviates (listed in the evidence as discarded_outside_domain with counts) are not compared; a trailing lone backslash is judged by the statement directly; one known finding (the engine behind the matcher gives up on globs with many stars on long names: reported as no match) is tolerated by its exact signature and probed by a committed fuzz artifact.', 'DESIGN.md §3 C12'),
  'C17': ('property-based testing + bounded-exhaustive enumeration: regex ASTs rendered into each supported syntax vs an independent set-of-end-positions matcher over the AST (whole-path membership); subjects generated from the AST (members, prefixes, extensions); hook tier and end-to-end tier with positional -regextype',
          'Exploration: every AST of <= 4 (thorough 5) nodes x every subject of <= 4 symbols x four syntaxes x both case modes (alternatives also reversed), hundreds of thousands of random ASTs (sets, ranges, intervals, alternation with prefix-sharing branches, literal + and ?) in six syntax names, and tens of thousands of find runs on files named by the subjects with -regextype before / inside / after parentheses or given twice.',
          'The oracle decides membership of the entire path in the language of the AST; only constructs each syntax documents are rendered; nullable loop bodies and more than two nested unbounded repetitions are not generated at random; one known finding (the regex engine gives up on exponentially ambiguous patterns: such members are reported as not matching) is tolerated by its exact signature and probed deterministically.', 'DESIGN.md §3 C17'),
